@@ -39,10 +39,18 @@ for _n in TERNARY:
 for _n in QUATERNARY:
     ARITY[_n] = 4
 
+# constructors known to render / interpreter / numbering but NOT used by the default generator
+# (the spaces of C01/C12/C14/C17 stay as they are); C01 enumerates them in a family of its own
+EXTRA_ARITY = {"try_exel": 3,     # (try A (except [ValueError] B) (else C))   -- no finally
+               "cut_hi0": 2,      # (cut [A 7] B 0)                          -- literal upper bound 0
+               "cut_step": 3}     # (cut [A 7 8] B None C)                   -- lower, no upper, step
+ALL_ARITY = dict(ARITY)
+ALL_ARITY.update(EXTRA_ARITY)
+
 # which constructors produce Python statements when compiled (for the
 # "non-trivial" rule: a term with one of these below an expression slot)
 STMT_OPS = {"setv_x", "setv_y", "defncall", "with_s", "with_n", "while", "for_x", "whileelse", "forelse",
-            "try_ex", "try_fin", "try_full", "raise", "break", "continue", "return", "let_x"}
+            "try_ex", "try_fin", "try_full", "try_exel", "raise", "break", "continue", "return", "let_x"}
 
 
 def slot_ctx(op, k, in_fn, in_loop):
@@ -88,7 +96,7 @@ def gen(n, in_fn=False, in_loop=False, ops=None, leaves=None):
         for t in gen(n - 1, in_fn, in_loop, ops, leaves):
             out.append(("return", t))
     for op in ops_l:
-        ar = ARITY.get(op)
+        ar = ALL_ARITY.get(op)
         if ar is None or n - 1 < ar:
             continue
         for split in _compositions(n - 1, ar):
@@ -232,6 +240,12 @@ def render(t):
         return f"(get [{r(t[1])} {r(t[2])}] {r(t[3])})"
     if op == "cut":
         return f"(cut [{r(t[1])} {r(t[2])}] {r(t[3])})"
+    if op == "try_exel":
+        return f"(try {r(t[1])} (except [ValueError] {r(t[2])}) (else {r(t[3])}))"
+    if op == "cut_hi0":
+        return f"(cut [{r(t[1])} 7] {r(t[2])} 0)"
+    if op == "cut_step":
+        return f"(cut [{r(t[1])} 7 8] {r(t[2])} None {r(t[3])})"
     raise ValueError(op)
 
 
@@ -597,6 +611,19 @@ class Interp:
                     return E(env, t[3])
             finally:
                 E(env, t[4])
+        if op == "try_exel":
+            try:
+                E(env, t[1])
+            except ValueError:
+                return E(env, t[2])
+            else:
+                return E(env, t[3])
+        if op == "cut_hi0":
+            a, lo = self.par(env, [t[1], t[2]])
+            return [a, 7][lo:0]
+        if op == "cut_step":
+            a, lo, st = self.par(env, [t[1], t[2], t[3]])
+            return [a, 7, 8][lo:None:st]
         if op == "cond1":
             if E(env, t[1]):
                 return E(env, t[2])
